@@ -53,6 +53,13 @@ class StmtMixin:
         if m is None:
             raise Unsupported("statement %s at line %s" % (type(node).__name__, node.lineno))
         self.note('node', type(node).__name__)
+        sk = self.cur[0].extra.get('skip_stmts') if self.cur else None
+        if sk:
+            text = ast.unparse(node).split('\n')[0]
+            if text in sk:
+                # a statement the sidecar declares irrelevant to every contract (reason recorded in the ledger)
+                self.note('rule', (node.lineno, text[:60], 'statement abstracted away: ' + sk[text]))
+                return self.ok(st)
         outs = m(node, st)
         gc = self.cur[0].extra.get('ghost_code') if self.cur else None
         if gc and not getattr(self, 'in_ghost', False):
@@ -713,11 +720,17 @@ class StmtMixin:
                 fields.add((it.rid, 'pos'))
         text = ast.unparse(f)
         rule = self.find_rule(text)
+        callee = None
+        if isinstance(rule, dict) and rule.get('kind') == 'contract':
+            callee = rule['qual']
+            if callee in self.contracts:
+                for m in self.contracts[callee].modifies:
+                    self.mod_entry(m, n, None, st, mods, callee)
+            return
         if isinstance(rule, dict) or (callable(rule) and hasattr(rule, 'modifies')):
             for m in (rule.get('modifies', []) if isinstance(rule, dict) else rule.modifies):
                 self.mod_entry(m, n, None, st, mods)
             return
-        callee = None
         if isinstance(f, ast.Name):
             v = st.lookup(f.id)
             if isinstance(v, VFunc) and v.kind == 'closure' and depth < 3:
@@ -769,6 +782,8 @@ class StmtMixin:
                 for kw in call.keywords:
                     if kw.arg == m:
                         expr = kw.value
+            elif m in self.contracts[callee].extra.get('free', {}):
+                expr = ast.Name(id=m, ctx=ast.Load())      # a free variable of a nested function: the caller's binding
         if expr is None and callee is None:
             e = ast.parse(m, mode='eval').body          # an expression of the caller's own scope
             if isinstance(e, ast.Attribute):
